@@ -584,7 +584,17 @@ func (r *run) exec() {
 			if want == "ok_empty" || want == "ok_stored" || want == "ok_fetched" {
 				want = "ok"
 			}
-			if got := classify(retErr); got != want {
+			got := classify(retErr)
+			if want == "not_available_or_byzantine" { // DESIGN.md section 6 #19: either report conforms
+				if got == "byzantine" {
+					r.rep.Count("byz_notfound_reported_byzantine", 1)
+					want = got
+				} else {
+					r.rep.Count("byz_notfound_reported_not_available", 1)
+					want = "not_available"
+				}
+			}
+			if got != want {
 				r.driftf("SharesAvailable returned %q (%v), model %q", got, retErr, want)
 			}
 			if (getCalls > 0) != (s.Get != "na") {
